@@ -216,7 +216,8 @@ Proof.
   - destruct (N.ltb_spec (p_pos m) (pol_count m)); [lia|]. repeat split; auto.
   - destruct (N.ltb_spec (p_pos m) (pol_count m)); [|lia].
     destruct (p_cache m) as [v|] eqn:E.
-    + repeat split; auto. cbn. rewrite (C v eq_refl). reflexivity.
+    + pose proof (C v eq_refl) as Cv.
+      split; [split; [exact I|intros v0 Hv0; rewrite E in Hv0; exact (C v0 Hv0)]|]. split; [reflexivity|]. cbn. rewrite Cv. reflexivity.
     + split; [|split; reflexivity]. split; cbn; [exact I|]. intros v [= <-]. reflexivity.
 Qed.
 
